@@ -18,6 +18,7 @@ import (
 	"fmt"
 	"math/rand"
 	"os"
+	"regexp"
 	"strconv"
 	"strings"
 	"sync/atomic"
@@ -593,6 +594,11 @@ func run(input string) string {
 	return why
 }
 
+var (
+	leftOverlap = regexp.MustCompile(`L:-?\d+@(\d+)-(\d+)`)
+	exhausted   = regexp.MustCompile(`N:[^:;,|]*:0`)
+)
+
 func main() {
 	installNHook()
 	if len(os.Args) > 1 && os.Args[1] == "-worker" {
@@ -666,8 +672,25 @@ func main() {
 			if strings.Contains(obs, "P:") {
 				c += "/panic"
 			}
+			if m["pts"] == "comp" {
+				c += "/composite-points-only"
+			}
+			if m["mode"] == "lnconc" || m["mode"] == "nconc" || m["mode"] == "stress" {
+				// a Left during which some Next began or returned (`L:<v>@<done before>-<begun after>` with different counts)
+				if leftOverlap.MatchString(obs) {
+					for _, mm := range leftOverlap.FindAllStringSubmatch(obs, -1) {
+						if mm[1] != mm[2] {
+							c += "/left-overlaps-next"
+							break
+						}
+					}
+				}
+			}
+			if exhausted.MatchString(obs) {
+				c += "/exhausted"
+			}
 			return c
 		},
-		Rule: "seq: random schedule trees (depth<=3, <=6 children, once/const/line leaves incl. zero-token parts and far-future tokens, unlimited parts finished/live/not-begun by minutes to hours of margin, instance_step nodes, 0- and 1-child composites) x random Start/Next/Left sequences (started, unstarted = started by the first Next, double start, Start after Next), a quarter through the onFinish callback wrapper; timed: an unlimited part finishes between two phases of the case; conc: 2-3 goroutines released one atomic section at a time in PRNG-chosen (quick) or exhaustively enumerated (thorough) orders through the verif yield points, children may be nested composites, started and unstarted; stress: 2-8 free-running goroutines on nested trees, every Next/Left result checked for linearizability against the flat spec; cbconc: 2-4 goroutines on the onFinish wrapper over small trees, released one action at a time (wrapped call returned / callback entered / callback returned), the callback is held open by the harness while other callers reach the wrapper, a caller blocked in the once-primitive is observed through its goroutine status; seq huge=1: trees whose parts hold 2^31 … 2^62 tokens (once(1<<32), a million operations per second for an hour, instance_step with steps of 2^31), offsets run-length encoded, only Left and a handful of Next are called; lconc: 2-4 goroutines on ONE leaf (once/const/line/unlimited) in a second build of the driver with scheduling points in front of every access of the leaf's Next/Left to shared state (go build -overlay), released one access at a time, compared step by step with the concurrent leaf model and replayed against the atomic flat spec; lnconc: the same build on composites, points of the composites and of the leaves all active, judged like a free run; nconc: 2-3 goroutines on nested composites with the scheduling points of every level active, released one at a time, callers that wait for a lock of an outer level observed through their goroutine status, results judged like a free run; fac: the tree written as config settings (lists / type: composite / mixed) and decoded by the real config route (core/import hooks, plugin registry, config.DecodeAndValidate) into a FACTORY option (func() (core.Schedule, error), func() core.Schedule) or a plain schedule option, the factory called 2-4 times (all at once or lazily), the ops of the produced schedules interleaved or one schedule after the other, every produced schedule judged on its own against the flat spec of the configured tree; seq big=1: const parts at 40 000-120 000 ops/s and at rates whose period is not a whole number of ns (6000, 7000, 15000, 33333, 70000, fractional rates), 1-60 s, 10^4-2.6*10^5 tokens, drained completely (alone, in lists, step profiles, nested, beside small parts), offsets computed on the Lean side from rate and duration in exact float64 arithmetic, batches of Next calls compared by digest and checked for results earlier than the one before. distinct = distinct input line; all are non-trivial",
+		Rule: "seq: random schedule trees (depth<=3, <=6 children, once/const/line leaves incl. zero-token parts and far-future tokens, unlimited parts finished/live/not-begun by minutes to hours of margin, instance_step nodes, 0- and 1-child composites) x random Start/Next/Left sequences (started, unstarted = started by the first Next, double start, Start after Next), a quarter through the onFinish callback wrapper; timed: an unlimited part finishes between two phases of the case; conc: 2-3 goroutines released one atomic section at a time in PRNG-chosen (quick) or exhaustively enumerated (thorough) orders through the verif yield points, children may be nested composites, started and unstarted; stress: 2-8 free-running goroutines on nested trees, every Next/Left result checked for linearizability against the flat spec; cbconc: 2-4 goroutines on the onFinish wrapper over small trees, released one action at a time (wrapped call returned / callback entered / callback returned), the callback is held open by the harness while other callers reach the wrapper, a caller blocked in the once-primitive is observed through its goroutine status; seq huge=1: trees whose parts hold 2^31 … 2^62 tokens (once(1<<32), a million operations per second for an hour, instance_step with steps of 2^31), offsets run-length encoded, only Left and a handful of Next are called; lconc: 2-4 goroutines on ONE leaf (once/const/line/unlimited) in a second build of the driver with scheduling points in front of every access of the leaf's Next/Left to shared state (go build -overlay), released one access at a time, compared step by step with the concurrent leaf model and replayed against the atomic flat spec; lnconc: the same build on composites — round 6: the overlay also puts a point in front of every access of a lock-taking method (compositeSchedule Next/Left/Start) to the receiver made with NO lock held (started.Store, started.Load, the retries; any plain field read moved out of its section) — points of the composites and of the leaves all active (or, pts=comp, of the composites only), incl. a family of flat composites of small finite parts with one caller that keeps asking Left while others draw, schedules in bursts; judged like a free run; nconc: 2-3 goroutines on nested composites with the scheduling points of every level active, released one at a time, callers that wait for a lock of an outer level observed through their goroutine status, results judged like a free run; fac: the tree written as config settings (lists / type: composite / mixed) and decoded by the real config route (core/import hooks, plugin registry, config.DecodeAndValidate) into a FACTORY option (func() (core.Schedule, error), func() core.Schedule) or a plain schedule option, the factory called 2-4 times (all at once or lazily), the ops of the produced schedules interleaved or one schedule after the other, every produced schedule judged on its own against the flat spec of the configured tree; seq big=1: const parts at 40 000-120 000 ops/s and at rates whose period is not a whole number of ns (6000, 7000, 15000, 33333, 70000, fractional rates), 1-60 s, 10^4-2.6*10^5 tokens, drained completely (alone, in lists, step profiles, nested, beside small parts), offsets computed on the Lean side from rate and duration in exact float64 arithmetic, batches of Next calls compared by digest and checked for results earlier than the one before. distinct = distinct input line; all are non-trivial",
 	})
 }
